@@ -23,6 +23,11 @@ func runFault(o fsOpts) *result {
 		hi = o.to
 	}
 	for j := o.from; j < hi; j++ {
+		if j%8 == 0 {
+			// scenario: a read-only instance and a writable one sharing one drive manager over a
+			// drive that does not exist yet — every Initialize must return and leave the drive free
+			scenarioSharedManager(o, j, res)
+		}
 		g := h.NewGen(o.seed*1_000_003+int64(j), h.Profile{MaxContent: 900})
 		script := []h.Call{{Method: "initialize", Args: []string{h.EncName("/"), "511"}}}
 		for len(script) < o.length {
@@ -157,4 +162,45 @@ func runFault(o fsOpts) *result {
 	}
 	res.Nontrivial = res.OracleChecks["C10"]
 	return res
+}
+
+func scenarioSharedManager(o fsOpts, j int, res *result) {
+	dir := filepath.Join(o.scratch, fmt.Sprintf("scn%d", j))
+	os.RemoveAll(dir)
+	os.MkdirAll(dir, 0o755)
+	defer os.RemoveAll(dir)
+	c := h.DefaultCfg()
+	c.ReadOnly = true
+	ro, err := h.NewEnv(dir, c)
+	if err != nil {
+		return
+	}
+	defer ro.Close()
+	rw, err := h.NewEnvSharing(ro, false)
+	if err != nil {
+		return
+	}
+	defer rw.Close()
+	sro, srw := h.NewSession(ro), h.NewSession(rw)
+	sro.Timeout, srw.Timeout = o.watchdog, o.watchdog
+	fmt.Printf("P %d %d\n", j, 0)
+	steps := []struct {
+		s *h.Session
+		c h.Call
+		n string
+	}{
+		{sro, h.Call{Method: "initialize", Args: []string{h.EncName("/"), "511"}}, "read-only Initialize over a missing drive"},
+		{sro, h.Call{Method: "initialize", Args: []string{h.EncName("/"), "511"}}, "second read-only Initialize"},
+		{srw, h.Call{Method: "initialize", Args: []string{h.EncName("/"), "511"}}, "writable Initialize sharing the drive manager"},
+		{srw, h.Call{Method: "mkdir", Args: []string{h.EncName("/a"), "493"}}, "Mkdir afterwards"},
+	}
+	for _, st := range steps {
+		st.s.Exec(st.c)
+		res.OracleChecks["C10"]++
+		if st.s.Wedged {
+			res.OracleFails = append(res.OracleFails, OracleFail{Property: "C10", Hist: fmt.Sprintf("%d-%d", o.seed, j), Step: 0,
+				What: st.n + " never returned (the drive was left locked by a rejected call)", Calls: []string{"scenario: read-only + writable instance over one TapeManager, drive file absent"}})
+			return
+		}
+	}
 }
